@@ -93,6 +93,9 @@ def work_extra(item):
                     tag = "slow-loop" if lay["p_us"] >= 100000 else "selection-change"
                     res.violation(f"fms:{kind}:{where}:{tag}", f"layout {lay['name']} history {h!r} select-other-after-step {sel} faults {desc} (FMS attached): end={life.end!r}; callback sequence diverges from the fault-free run at index {k}: got {seq[k:k+4]}, fault-free {refseq[k:k+4]}", dict(engine="robot", layout=lay, history=h, fms=True, faults={kk: (list(v) if isinstance(v, tuple) else v) for kk, v in plan.items()}, select=sel))
                 res.outcome(core.stable_hash([h, sel, desc, seq[-3:]]))
+                for r in life.log:
+                    if len(r) > 3:
+                        res.visit(lay["name"], r[0], str(plan.get(r[0])), mode_of_site(life, life.log.index(r)), sel)
     if not res.samples and item["histories"]:
         res.sample(dict(layout=lay["name"], history=item["histories"][0], select_other_after_step=item["selects"], plans=[{k: (list(v) if isinstance(v, tuple) else v) for k, v in p.items()} for p in item["plans"][:3]]))
     return res
@@ -145,6 +148,9 @@ def work(item):
                 k = next((i for i, (x, y) in enumerate(zip(seq, refseq)) if x != y), min(len(seq), len(refseq)))
                 res.violation(sig, f"layout {lay['name']} history {h!r} faults {desc} (FMS attached): end={life.end[0]}; callback sequence diverges from the fault-free run at index {k}: got {seq[k:k+4]}, fault-free {refseq[k:k+4]}; last fault raised in {where}", rp)
             res.outcome(core.stable_hash([h, desc, seq[-3:], life.end[0]]))
+            for r in life.log:
+                if len(r) > 3:
+                    res.visit(lay["name"], r[0], str(plan.get(r[0])), mode_of_site(life, life.log.index(r)))
             # ---- FMS not attached: the same exception object propagates out of the robot program
             if item["kind"] == "single" and list(plan.values())[0] in (1, 2):
                 s, pat = list(plan.items())[0]
@@ -202,7 +208,6 @@ def main(tier, seed):
         for d in pool.run("mc.props.c07", "work_extra", extra, seed=seed):
             res.merge(d)
     res.bounds.update(slow_loop_histories=len(slow_hs), slow_loop_patterns=["calls 1 and 3", "calls 1, 2 and 4"], selection_change_histories=len(sel_hs), selection_change_after_step=[0, 1, 2, 3])
-    res.states = sum(len(sites(l)) for l in L) * 3 * 4
     res.bounds.update(single_fault_history_depth=d_single, fault_pair_history_depth=d_pair, layouts=len(L), sites=sites(L[0]), patterns=["1st call", "2nd call", "every call"])
     rule = (
         "for every layout, every driver-station history up to the stated depth and every fault plan (each callback site x {first, second, every call}; "
@@ -211,7 +216,7 @@ def main(tier, seed):
         "the FMS, where the injected exception object must propagate out of startCompetition() and nothing may run after the faulting call. "
         "In addition: a robot with a 0.3 s loop period and faults on calls 0.6 s or more apart (longer than error_report_interval), and a robot with two "
         "autonomous modes whose selection (dashboard 'Auto Selector') changes between two autonomous periods while mode callbacks fault. "
-        "states = site x pattern x mode combinations; transitions = loop iterations executed under a fault plan."
+        "states = distinct (layout, faulting site, pattern, mode in which it fired) combinations actually reached; transitions = loop iterations executed under a fault plan."
     )
     return core.finish(PID, tier, seed, res, time.time() - t0, rule, ["values seen by later callbacks are not compared (a raising callback does not finish its own side effects)", "setup() and createObjects() are not callback sites of this property"])
 
